@@ -383,6 +383,26 @@ pub struct Report<'a> {
     pub exhaustive: bool,
 }
 
+/// State carried between the rounds of a multi-round (thorough) run: `./check` runs the check
+/// binary once per generated batch of definitions (`--round r/R --acc <file>`); every round
+/// merges its statistics into the accumulator so that the evidence file written by the last
+/// round describes the whole run.
+#[derive(Default, Serialize, Deserialize)]
+struct Acc {
+    stats: Stats,
+    known_hits: BTreeMap<String, u64>,
+    nviol: usize,
+    round_seeds: Vec<u64>,
+    wall: f64,
+}
+
+fn round_arg(args: &Args) -> Option<(usize, usize)> {
+    let i = args.extra.iter().position(|x| x == "--round")?;
+    let w = args.extra.get(i + 1)?;
+    let mut it = w.split('/');
+    Some((it.next()?.parse().ok()?, it.next()?.parse().ok()?))
+}
+
 /// Finish a run: match violations against known findings, write replay files and the evidence
 /// file, print VIOLATION / KNOWN-FINDING lines, return the exit code.
 pub fn finish(rep: Report, mut stats: Stats, started: Instant) -> i32 {
@@ -413,15 +433,51 @@ pub fn finish(rep: Report, mut stats: Stats, started: Instant) -> i32 {
         let _ = std::fs::write(&path, serde_json::to_string_pretty(&body).unwrap());
         reported.push(path);
     }
-    for k in known.iter().filter(|k| k.status == "open" && k.property == args.prop) {
-        let n = known_hits.get(&k.id).copied().unwrap_or(0);
-        println!("KNOWN-FINDING: property={} {} [{}; reproduced {} time(s) in this run]", args.prop, k.what, k.id, n);
+    let this_nviol = unlisted.len();
+    let this_inconclusive = stats.inconclusive.clone();
+    let mut wall = started.elapsed().as_secs_f64();
+    let mut nviol = this_nviol;
+    // multi-round accumulation
+    let round = round_arg(args);
+    let acc_path = args.extra.iter().position(|x| x == "--acc").and_then(|i| args.extra.get(i + 1)).map(PathBuf::from);
+    let base_seed = args
+        .extra
+        .iter()
+        .position(|x| x == "--base-seed")
+        .and_then(|i| args.extra.get(i + 1))
+        .and_then(|s| s.parse::<i128>().ok())
+        .map(|x| x as u64)
+        .unwrap_or(args.seed);
+    let mut round_seeds = vec![args.seed];
+    if let Some(p) = &acc_path {
+        let mut acc: Acc = match round {
+            Some((r, _)) if r > 0 => std::fs::read_to_string(p).ok().and_then(|s| serde_json::from_str(&s).ok()).unwrap_or_default(),
+            _ => Acc::default(),
+        };
+        acc.stats.merge(std::mem::take(&mut stats));
+        for (k, v) in &known_hits {
+            *acc.known_hits.entry(k.clone()).or_insert(0) += v;
+        }
+        acc.nviol += this_nviol;
+        acc.round_seeds.push(args.seed);
+        acc.wall += wall;
+        let _ = std::fs::write(p, serde_json::to_string(&acc).unwrap());
+        stats = acc.stats;
+        known_hits = acc.known_hits;
+        nviol = acc.nviol;
+        round_seeds = acc.round_seeds;
+        wall = acc.wall;
+    }
+    let last_round = round.map(|(r, n)| r + 1 >= n).unwrap_or(true);
+    if last_round {
+        for k in known.iter().filter(|k| k.status == "open" && k.property == args.prop) {
+            let n = known_hits.get(&k.id).copied().unwrap_or(0);
+            println!("KNOWN-FINDING: property={} {} [{}; reproduced {} time(s) in this run]", args.prop, k.what, k.id, n);
+        }
     }
     for p in &reported {
         println!("VIOLATION property={} replay={}", args.prop, p.display());
     }
-    let nviol = unlisted.len();
-    let wall = started.elapsed().as_secs_f64();
     let mut coverage = json!({
         "evaluations": stats.evaluations,
         "distinct_nontrivial": stats.nontrivial.len(),
@@ -433,6 +489,8 @@ pub fn finish(rep: Report, mut stats: Stats, started: Instant) -> i32 {
         "notes": stats.notes,
         "inconclusive": stats.inconclusive,
         "exhaustive": rep.exhaustive,
+        "definition_batches": round_seeds.len(),
+        "definition_batch_seeds": round_seeds,
     });
     if let (Value::Object(c), Value::Object(e)) = (&mut coverage, rep.extra_coverage) {
         for (k, v) in e {
@@ -442,7 +500,7 @@ pub fn finish(rep: Report, mut stats: Stats, started: Instant) -> i32 {
     let ev = json!({
         "property_id": args.prop,
         "tier": args.tier,
-        "seed": args.seed,
+        "seed": base_seed,
         "level": rep.level,
         "coverage": coverage,
         "assumptions": rep.assumptions,
@@ -454,10 +512,11 @@ pub fn finish(rep: Report, mut stats: Stats, started: Instant) -> i32 {
     let evpath = evdir.join(format!("{}.json", args.prop));
     std::fs::write(&evpath, serde_json::to_string_pretty(&ev).unwrap()).expect("write evidence");
     eprintln!(
-        "[{}] tier={} seed={} evaluations={} distinct_nontrivial={} violations={} known_hits={:?} inconclusive={} wall={:.1}s",
+        "[{}] tier={} seed={}{} evaluations={} distinct_nontrivial={} violations={} known_hits={:?} inconclusive={} wall={:.1}s",
         args.prop,
         args.tier,
         args.seed,
+        round.map(|(r, n)| format!(" round={}/{} (cumulative)", r + 1, n)).unwrap_or_default(),
         stats.evaluations,
         stats.nontrivial.len(),
         nviol,
@@ -465,10 +524,10 @@ pub fn finish(rep: Report, mut stats: Stats, started: Instant) -> i32 {
         stats.inconclusive.len(),
         wall
     );
-    if nviol > 0 {
+    if this_nviol > 0 {
         1
-    } else if !stats.inconclusive.is_empty() {
-        for i in &stats.inconclusive {
+    } else if !this_inconclusive.is_empty() {
+        for i in &this_inconclusive {
             eprintln!("INCONCLUSIVE: {}", i.chars().take(600).collect::<String>());
         }
         2
